@@ -7,6 +7,7 @@ Only import-free model files may be imported here (the executable must link).
 import TracingModel.Core.Wire
 import TracingModel.Core.DateTime
 import TracingModel.Spec.CivilJudge
+import TracingModel.Core.LevelsDriver
 
 open TM TM.Wire
 
@@ -36,6 +37,8 @@ def c20Judge (toks : List String) : String :=
 
 def dispatch (prop mode : String) : Option (List String → String) :=
   match prop, mode with
+  | "C19", "model" => some LevelsDriver.model
+  | "C19", "judge" => some LevelsDriver.judge
   | "C20", "model" => some c20Model
   | "C20", "spec" => some c20Spec
   | "C20", "judge" => some c20Judge
